@@ -7,16 +7,23 @@ import "reflect"
 // rendezvous between two managed threads is not modelled: a send on a full /
 // unbuffered channel is reported as unsupported instead of guessing.
 
-var closedChans = map[uintptr]bool{}
+var closedChans []uintptr // a slice, not a map: map functions are race-instrumented even under //go:norace
 
 //go:norace
 func chanKey(c any) uintptr { return reflect.ValueOf(c).Pointer() }
 
 //go:norace
-func markClosed(k uintptr) { closedChans[k] = true }
+func markClosed(k uintptr) { closedChans = append(closedChans, k) }
 
 //go:norace
-func isClosed(k uintptr) bool { return closedChans[k] }
+func isClosed(k uintptr) bool {
+	for _, c := range closedChans {
+		if c == k {
+			return true
+		}
+	}
+	return false
+}
 
 // Unsupported is set when the instrumented code used a construct the shims cannot schedule.
 var Unsupported string
@@ -61,4 +68,4 @@ func Send[T any](c chan<- T, v T) {
 // ResetChans forgets channel state between executions.
 //
 //go:norace
-func ResetChans() { closedChans = map[uintptr]bool{}; Unsupported = "" }
+func ResetChans() { closedChans = nil; Unsupported = "" }
